@@ -207,7 +207,13 @@ func streamUnmarshal(r *hx.Rng, cfs []*cfile, bs *builtSet) {
 		for _, u := range cases {
 			switch prop {
 			case "C07":
-				reqs = append(reqs, fmt.Sprintf("RT %s %s", u.md.FullName(), hx.B(u.input)))
+				// (every other case decodes into a destination that already holds another message WITH unknown fields)
+				pre := u.pre
+				if len(pre) > 0 {
+					g := &vgen{r: r}
+					pre = append(append([]byte{}, pre...), g.unknownField(u.md)...)
+				}
+				reqs = append(reqs, fmt.Sprintf("RT %s %s %s", u.md.FullName(), hx.B(u.input), hx.B(pre)))
 			case "C10":
 				reqs = append(reqs, fmt.Sprintf("AL %s %s", u.md.FullName(), hx.B(u.input)))
 			default:
